@@ -76,11 +76,43 @@ func main() {
 			packages.NeedFiles | packages.NeedImports | packages.NeedDeps | packages.NeedCompiledGoFiles,
 		Dir: *dir,
 	}
-	pats := []string{".", "./channel", "./server", "./jhttp", "./handler"}
-	pkgs, err := packages.Load(cfg, pats...)
+	// The library's public packages and every package of the module they import
+	// (a helper moved into internal/... runs under the simulator like the rest).
+	all0, err := packages.Load(cfg, "./...")
 	if err != nil {
 		fmt.Fprintln(os.Stderr, "instrument: load:", err)
 		os.Exit(2)
+	}
+	var modPath string
+	byPath := map[string]*packages.Package{}
+	for _, p := range all0 {
+		byPath[p.PkgPath] = p
+		if modPath == "" || len(p.PkgPath) < len(modPath) {
+			modPath = p.PkgPath
+		}
+	}
+	want := map[string]bool{}
+	var visit func(path string)
+	visit = func(path string) {
+		p := byPath[path]
+		if p == nil || want[path] || strings.HasSuffix(path, "/verifrt") || strings.HasSuffix(path, "/verifh") {
+			return
+		}
+		want[path] = true
+		for ip := range p.Imports {
+			if ip == modPath || strings.HasPrefix(ip, modPath+"/") {
+				visit(ip)
+			}
+		}
+	}
+	for _, sub := range []string{"", "/channel", "/server", "/jhttp", "/handler"} {
+		visit(modPath + sub)
+	}
+	var pkgs []*packages.Package
+	for _, p := range all0 {
+		if want[p.PkgPath] {
+			pkgs = append(pkgs, p)
+		}
 	}
 	var all []site
 	bad := false
@@ -257,6 +289,24 @@ func (rw *rewriter) file(f *ast.File) {
 				rw.used = true
 			}
 		}
+		// (*sync.Once).Do: callers queue on the simulator's side (see verifrt.OnceDo)
+		if p, t, m := rw.methodOf(c); p == "sync" && t == "Once" && m == "Do" && len(c.Args) == 1 {
+			x := c.Fun.(*ast.SelectorExpr).X
+			if tv, ok := rw.info.Types[x]; ok {
+				if _, isPtr := tv.Type.(*types.Pointer); !isPtr {
+					x = &ast.UnaryExpr{Op: token.AND, X: x}
+				}
+			}
+			c.Fun = rt("OnceDo")
+			c.Args = []ast.Expr{rw.site(c, "once"), x, c.Args[0]}
+		}
+		if p, name := rw.funcOf(c); p == "sync" && strings.HasPrefix(name, "Once") {
+			rw.refuse(c, "sync."+name+" hides a sync.Once the simulator cannot see")
+		}
+		if p, name := rw.funcOf(c); p == "context" && (name == "WithTimeoutCause" || name == "WithDeadlineCause") && len(c.Args) == 3 {
+			c.Fun = rt("Context" + name)
+			rw.used = true
+		}
 		// sync/atomic operations are scheduling points: a check-then-act sequence
 		// on atomics is free of data races but not atomic as a whole. The call
 		//	x.Op(args)   becomes   verifrt.AtomicNR(site, x.Op, args)
@@ -323,6 +373,39 @@ func (rw *rewriter) file(f *ast.File) {
 		} else if p == "context" && (name == "WithTimeout" || name == "WithDeadline") && len(c.Args) == 2 {
 			c.Fun = rt("Context" + name)
 			rw.used = true
+		}
+		return true
+	})
+	// References to timer and context functions as values (var after = time.After)
+	// are redirected to replacements of the same signature.
+	valueOf := map[string]string{
+		"time.Sleep": "Sleep", "time.After": "After", "time.NewTimer": "NewTimer", "time.NewTicker": "NewTicker", "time.Tick": "Tick",
+		"time.AfterFunc": "TimeAfterFuncV", "context.AfterFunc": "ContextAfterFuncV",
+		"context.WithTimeout": "ContextWithTimeout", "context.WithDeadline": "ContextWithDeadline",
+		"context.WithTimeoutCause": "ContextWithTimeoutCause", "context.WithDeadlineCause": "ContextWithDeadlineCause",
+	}
+	inCall := map[*ast.SelectorExpr]bool{}
+	ast.Inspect(f, func(n ast.Node) bool {
+		if c, ok := n.(*ast.CallExpr); ok {
+			if sel, ok := c.Fun.(*ast.SelectorExpr); ok {
+				inCall[sel] = true
+			}
+		}
+		return true
+	})
+	ast.Inspect(f, func(n ast.Node) bool {
+		sel, ok := n.(*ast.SelectorExpr)
+		if !ok || inCall[sel] {
+			return true
+		}
+		if fn, ok := rw.info.Uses[sel.Sel].(*types.Func); ok && fn.Pkg() != nil {
+			if sig, _ := fn.Type().(*types.Signature); sig != nil && sig.Recv() == nil {
+				if repl, ok := valueOf[fn.Pkg().Path()+"."+fn.Name()]; ok {
+					sel.X = ast.NewIdent("verifrt")
+					sel.Sel = ast.NewIdent(repl)
+					rw.used = true
+				}
+			}
 		}
 		return true
 	})
@@ -410,8 +493,34 @@ func (rw *rewriter) isMutexLock(c *ast.CallExpr) bool {
 	return p == "sync" && ((t == "Mutex" && m == "Lock") || (t == "RWMutex" && (m == "Lock" || m == "RLock")))
 }
 
+// isLockerLock: Lock called through the interface sync.Locker.
+func (rw *rewriter) isLockerLock(c *ast.CallExpr) bool {
+	sel, ok := c.Fun.(*ast.SelectorExpr)
+	if !ok || sel.Sel.Name != "Lock" || len(c.Args) != 0 {
+		return false
+	}
+	tv, ok := rw.info.Types[sel.X]
+	if !ok || tv.Type == nil {
+		return false
+	}
+	n, ok := tv.Type.(*types.Named)
+	return ok && n.Obj().Pkg() != nil && n.Obj().Pkg().Path() == "sync" && n.Obj().Name() == "Locker"
+}
+
 func (rw *rewriter) beforeLock(c *ast.CallExpr) ast.Stmt {
 	x := c.Fun.(*ast.SelectorExpr).X
+	// the probe runs on the scheduler's goroutine, again and again: a receiver
+	// that is computed by a call must not be computed there
+	hasCall := false
+	ast.Inspect(x, func(n ast.Node) bool {
+		if _, ok := n.(*ast.CallExpr); ok {
+			hasCall = true
+		}
+		return !hasCall
+	})
+	if hasCall {
+		rw.refuse(c, "Lock on the result of a call (bind the mutex to a variable first)")
+	}
 	tryName, unlockName := "TryLock", "Unlock"
 	if c.Fun.(*ast.SelectorExpr).Sel.Name == "RLock" {
 		tryName, unlockName = "TryRLock", "RUnlock"
@@ -499,6 +608,25 @@ func (rw *rewriter) stmt(st ast.Stmt) []ast.Stmt {
 				handled[c] = true
 				return []ast.Stmt{rw.beforeLock(c), st}
 			}
+			if rw.isLockerLock(c) {
+				// x.Lock() on a sync.Locker value (cond.L.Lock())
+				handled[c] = true
+				x := c.Fun.(*ast.SelectorExpr).X
+				return []ast.Stmt{&ast.ExprStmt{X: call(rt("BeforeLocker"), rw.site(c, "lock"), x)}, st}
+			}
+			if p, t, m := rw.methodOf(c); p == "sync" && t == "WaitGroup" && m == "Go" && len(c.Args) == 1 {
+				// wg.Go(f)  ->  wg.Add(1); verifrt.Go(site, func() { defer wg.Done(); f() })
+				handled[c] = true
+				x := c.Fun.(*ast.SelectorExpr).X
+				fv := rw.fresh("f")
+				bind := &ast.AssignStmt{Lhs: []ast.Expr{fv}, Tok: token.DEFINE, Rhs: []ast.Expr{c.Args[0]}}
+				add := &ast.ExprStmt{X: call(&ast.SelectorExpr{X: x, Sel: ast.NewIdent("Add")}, &ast.BasicLit{Kind: token.INT, Value: "1"})}
+				body := &ast.FuncLit{Type: &ast.FuncType{Params: &ast.FieldList{}}, Body: &ast.BlockStmt{List: []ast.Stmt{
+					&ast.DeferStmt{Call: call(&ast.SelectorExpr{X: x, Sel: ast.NewIdent("Done")})},
+					&ast.ExprStmt{X: call(fv)},
+				}}}
+				return []ast.Stmt{bind, add, &ast.ExprStmt{X: call(rt("Go"), rw.site(c, "go"), body)}}
+			}
 			if k := rw.blockingCall(c); k != "" {
 				handled[c] = true
 				return rw.bracket(st, c, k)
@@ -520,6 +648,16 @@ func (rw *rewriter) stmt(st ast.Stmt) []ast.Stmt {
 		}
 
 	case *ast.IfStmt:
+		// if v, ok := <-ch; cond {...}
+		if a, ok := s.Init.(*ast.AssignStmt); ok && len(a.Rhs) == 1 && a.Tok == token.DEFINE {
+			if u := recvOf(a.Rhs[0]); u != nil && !handled[u] {
+				handled[u] = true
+				h := rw.fresh("h")
+				y, site := rw.yieldAssign(h, u, "recv")
+				s.Init = nil
+				return []ast.Stmt{&ast.BlockStmt{List: []ast.Stmt{y, a, woke(h, site), s}}}
+			}
+		}
 		// if err := sem.Acquire(ctx, 1); err != nil {...}
 		if a, ok := s.Init.(*ast.AssignStmt); ok && len(a.Rhs) == 1 {
 			if c, ok := a.Rhs[0].(*ast.CallExpr); ok && !handled[c] {
@@ -531,6 +669,34 @@ func (rw *rewriter) stmt(st ast.Stmt) []ast.Stmt {
 					s.Init = nil
 					return []ast.Stmt{&ast.BlockStmt{List: []ast.Stmt{y, a, woke(h, site), s}}}
 				}
+			}
+		}
+
+	case *ast.ReturnStmt:
+		// return <-ch   /   return g.Wait()   ->   { h := Yield; v := ...; Woke; return v }
+		if len(s.Results) == 1 {
+			var n ast.Node
+			kind := ""
+			if u := recvOf(s.Results[0]); u != nil && !handled[u] {
+				n, kind = u, "recv"
+				handled[u] = true
+			} else if c, ok := s.Results[0].(*ast.CallExpr); ok && !handled[c] {
+				if k := rw.blockingCall(c); k != "" {
+					if tv, ok := rw.info.Types[c]; ok {
+						if _, isTup := tv.Type.(*types.Tuple); !isTup {
+							n, kind = c, k
+							handled[c] = true
+						}
+					}
+				}
+			}
+			if n != nil {
+				h := rw.fresh("h")
+				v := rw.fresh("v")
+				y, site := rw.yieldAssign(h, n, kind)
+				bind := &ast.AssignStmt{Lhs: []ast.Expr{v}, Tok: token.DEFINE, Rhs: []ast.Expr{s.Results[0]}}
+				s.Results[0] = v
+				return []ast.Stmt{&ast.BlockStmt{List: []ast.Stmt{y, bind, woke(h, site), s}}}
 			}
 		}
 
@@ -552,8 +718,16 @@ func (rw *rewriter) stmt(st ast.Stmt) []ast.Stmt {
 				Body: &ast.BlockStmt{List: []ast.Stmt{rw.beforeLock(s.Call), lock}}}
 			return []ast.Stmt{&ast.DeferStmt{Call: call(fl)}}
 		}
-		if k := rw.blockingCall(s.Call); k != "" {
-			rw.refuse(s, "deferred blocking call")
+		if k := rw.blockingCall(s.Call); k != "" && !handled[s.Call] {
+			// defer wg.Wait()  ->  defer func() { h := Yield; wg.Wait(); Woke }()
+			// (the receiver is evaluated when the deferred function runs; for the
+			// addressable variables this is used with that makes no difference)
+			handled[s.Call] = true
+			h := rw.fresh("h")
+			y, site := rw.yieldAssign(h, s.Call, k)
+			fl := &ast.FuncLit{Type: &ast.FuncType{Params: &ast.FieldList{}},
+				Body: &ast.BlockStmt{List: []ast.Stmt{y, &ast.ExprStmt{X: s.Call}, woke(h, site)}}}
+			return []ast.Stmt{&ast.DeferStmt{Call: call(fl)}}
 		}
 
 	case *ast.SelectStmt:
@@ -641,6 +815,38 @@ func (rw *rewriter) prioritised(s *ast.SelectStmt, site *ast.BasicLit, wokeStmt 
 			return nil
 		}
 	}
+	// Go evaluates the channel operands and send values of a select once, in
+	// source order, on entering it. The rewrite mentions each communication up
+	// to three times, so operands that are more than plain variables or field
+	// selections are evaluated once into temporaries first.
+	var hoisted []ast.Stmt
+	hoist := func(e ast.Expr) ast.Expr {
+		simple := true
+		ast.Inspect(e, func(n ast.Node) bool {
+			switch n.(type) {
+			case *ast.CallExpr, *ast.UnaryExpr, *ast.IndexExpr, *ast.FuncLit, *ast.CompositeLit:
+				simple = false
+			}
+			return simple
+		})
+		if simple {
+			return e
+		}
+		v := rw.fresh("op")
+		hoisted = append(hoisted, &ast.AssignStmt{Lhs: []ast.Expr{v}, Tok: token.DEFINE, Rhs: []ast.Expr{e}})
+		return v
+	}
+	for _, cc := range s.Body.List {
+		c := cc.(*ast.CommClause)
+		switch x := c.Comm.(type) {
+		case *ast.ExprStmt:
+			u := recvOf(x.X)
+			u.X = hoist(u.X)
+		case *ast.SendStmt:
+			x.Chan = hoist(x.Chan)
+			x.Value = hoist(x.Value)
+		}
+	}
 	vc := rw.fresh("c")
 	vi := rw.fresh("i")
 	lit := func(i int) ast.Expr { return &ast.BasicLit{Kind: token.INT, Value: fmt.Sprint(i)} }
@@ -668,13 +874,16 @@ func (rw *rewriter) prioritised(s *ast.SelectStmt, site *ast.BasicLit, wokeStmt 
 			&ast.SwitchStmt{Tag: vi, Body: &ast.BlockStmt{List: tries}},
 			&ast.IfStmt{Cond: &ast.BinaryExpr{X: vc, Op: token.GEQ, Y: lit(0)}, Body: &ast.BlockStmt{List: []ast.Stmt{&ast.BranchStmt{Tok: token.BREAK}}}},
 		}}}
-	return &ast.BlockStmt{List: []ast.Stmt{
+	return &ast.BlockStmt{List: append(hoisted, []ast.Stmt{
 		&ast.AssignStmt{Lhs: []ast.Expr{vc}, Tok: token.DEFINE, Rhs: []ast.Expr{neg}},
 		loop,
 		&ast.IfStmt{Cond: &ast.BinaryExpr{X: vc, Op: token.LSS, Y: lit(0)}, Body: &ast.BlockStmt{List: []ast.Stmt{fullSel}}},
 		wokeStmt,
-		&ast.SwitchStmt{Tag: vc, Body: &ast.BlockStmt{List: bodies}},
-	}}
+		&ast.SwitchStmt{Tag: vc, Body: &ast.BlockStmt{List: append(bodies, &ast.CaseClause{Body: []ast.Stmt{
+			// keeps the rewritten statement a terminating one when every case returns
+			&ast.ExprStmt{X: call(ast.NewIdent("panic"), &ast.BasicLit{Kind: token.STRING, Value: `"verif: no select case chosen"`})},
+		}})}},
+	}...)}
 }
 
 func (rw *rewriter) goStmt(g *ast.GoStmt) []ast.Stmt {
